@@ -180,7 +180,11 @@ Section Generic.
   Definition succs (E : dict) (S : list A) : list A := flat_map (get_or_nil E) S.
   Fixpoint reach_iter (n : nat) (E : dict) (S : list A) : list A :=
     match n with O => S | S k => reach_iter k E (dedup (S ++ succs E S)) end.
-  Definition reaches (E : dict) (u v : A) : bool := memb v (reach_iter (length E) E [u]).
+  (* predecessors: keys with an edge into S *)
+  Definition preds (E : dict) (S : list A) : list A :=
+    map fst (filter (fun kv => existsb (fun w => memb w S) (snd kv)) E).
+  Fixpoint coreach_iter (n : nat) (E : dict) (S : list A) : list A :=
+    match n with O => S | S k => coreach_iter k E (dedup (S ++ preds E S)) end.
 
   (* every edge out of a component ends in it or in an EARLIER component *)
   Fixpoint order_ok (E : dict) (earlier : list A) (comps : list (list A)) : bool :=
@@ -191,10 +195,14 @@ Section Generic.
       && order_ok E (c ++ earlier) r
     end.
 
+  (* every member is reachable from the first one and reaches it back *)
   Definition comp_connected (E : dict) (c : list A) : bool :=
     match c with
     | [] => false
-    | r :: _ => forallb (fun x => reaches E r x && reaches E x r) c
+    | r :: _ =>
+      let fwd := reach_iter (length E) E [r] in
+      let bwd := coreach_iter (length E) E [r] in
+      forallb (fun x => memb x fwd && memb x bwd) c
     end.
 
   Definition scc_check (E : dict) (comps : list (list A)) : bool :=
